@@ -421,6 +421,14 @@ PROPS["C01"]["level_note"] += "; the soft-max/cross-entropy clause uses the symb
 
 PROPS["C03"]["record"] = [{"group": "optslots", "trace_module": "Trace_Opt"}]
 PROPS["C03"]["technique"] += " + TLC validation of the slot addressing of real training runs (Trace_Opt / OptSlots.tla)"
+# C02 (last clause) / C09: however a learn call ends -- budget or early stop -- the network predicts as the composition of its
+# layers afterwards (small early-stopping instance; the network carries dropout)
+_STOP_SMALL = {"module": "MC_Training",
+               "consts": {"quick": {"MaxN": 1, "MaxB": 1, "MaxE": 4, "MaxWorkers": 1, "MaxTol": 2, "NVals": 2, "MaxLayers": 1, "Mode": "earlystop"},
+                          "thorough": {"MaxN": 1, "MaxB": 1, "MaxE": 5, "MaxWorkers": 1, "MaxTol": 3, "NVals": 3, "MaxLayers": 1, "Mode": "earlystop"}},
+               "workers": 4}
+PROPS["C02"]["mc"].append(_STOP_SMALL)
+PROPS["C09"]["mc"].append(_STOP_SMALL)
 # C03, histories that span several learn calls on one network (every optimizer family, incl. feedback blocks)
 PROPS["C03"]["mc"].append({"module": "MC_Training",
                            "consts": {"quick": {"MaxN": 2, "MaxB": 2, "MaxE": 2, "MaxWorkers": 1, "MaxTol": 1, "NVals": 1, "MaxLayers": 1, "Mode": "schedule"},
